@@ -171,11 +171,12 @@ CHECKS = {
     "C19": dict(
         technique="Lean 4 theorems (no-panic proof of record parsing under a parser-state invariant preserved by every record; two-digit-year window; calendar bijection on all 36525 days by kernel evaluation) + bit-exact correspondence + round-trip oracle",
         text="C19_parseB/H/I/parseLine_total: under the invariant (35 <= bRecordLen, every extension window non-empty and inside the B-record length) no index "
-             "expression of the record parsers is out of range, for every line; C19_year_window: yy<70 -> 20yy else 19yy inverts year%100 on 1970..2069; "
+             "expression of the record parsers is out of range, for every line; C19_parseLine_preserves: every record (incl. every forged I record) leaves a state "
+             "satisfying the invariant; C19_document_total / C19_doParse_total: hence for every byte string the decoder returns without a panic; C19_year_window: yy<70 -> 20yy else 19yy inverts year%100 on 1970..2069; "
              "C19_calendar_window: for each of the 36525 days of the window the model's day-number -> civil date -> day-number is the identity with a valid "
              "date. The whole decoder/encoder (incl. garbage dates and int64 wrap) is mirrored and compared bit for bit with Go on generated and mutated "
              "documents; the oracle checks totality, whole fixes, and encode-then-decode to 1/60000 degree, whole seconds and clamped altitude.",
-        note=NOTE_COMMON + "Partial: preservation of the invariant by parseI is exercised by the model run, the statement proved is per-record safety given the invariant; the fix round trip is oracle-checked.",
+        note=NOTE_COMMON + "Partial: the fix round trip to format resolution (float arithmetic) is oracle-checked, not proved.",
     ),
     "C18": dict(
         technique="Lean 4 theorems about the exact formatting contract (half-unit rounding error, trimming removes only a trailing run) + text-exact correspondence of the WKT/GeoJSON encoders + per-number oracle in exact rational arithmetic",
